@@ -35,6 +35,19 @@ class Wrap(nn.Module):
     return self.inner(x) * 2 + k + n.value
 
 
+class Pair(nn.Module):
+  inner: Any = None
+  inner2: Any = None
+  w: int = 1
+
+  @nn.compact
+  def __call__(self, x):
+    k = self.param('w', lambda key: jnp.asarray(self.w, dtype=jnp.int64))
+    n = self.variable('count', 'n', lambda: jnp.asarray(0, dtype=jnp.int64))
+    n.value = n.value + 1
+    return self.inner2(self.inner(x)) + k + n.value
+
+
 class Top(nn.Module):
   a: Any = None
   b: Any = None
@@ -52,7 +65,8 @@ class Top(nn.Module):
 def build(c):
   objs = []
   for d in c['insts']:
-    objs.append(Leaf(w=d['w']) if d['kind'] == 'leaf' else Wrap(inner=objs[d['inner']], w=d['w']))
+    objs.append(Leaf(w=d['w']) if d['kind'] == 'leaf' else (Wrap(inner=objs[d['inner']], w=d['w']) if d['kind'] == 'wrap' else
+                                                            Pair(inner=objs[d['inner']], inner2=objs[d['inner2']], w=d['w'])))
   return Top(calls=tuple(c['calls']), **{f: objs[i] for f, i in c['fields'].items()}), objs
 
 
@@ -85,6 +99,32 @@ def run_case(c):
       o2 = o2.inner
     same.append(o1 is o2)
   out['same'] = same
+  # bind followed by unbind hands back an equivalent module and the variables it was bound to
+  try:
+    ub, ubvars = b.unbind()
+    ubvars = flax.core.unfreeze(ubvars)
+    yu, vu = ub.init_with_output(jax.random.key(0), x)
+    vu = flax.core.unfreeze(vu)
+    ya, upd2 = ub.apply(ubvars, x, mutable=['count'])
+    out['unbind'] = {'y_init': int(yu), 'counts': leaves(vu.get('count', {}), 'n'), 'params': leaves(vu.get('params', {}), 'w'),
+                     'vars_same': jax.tree_util.tree_structure(ubvars) == jax.tree_util.tree_structure(variables) and
+                                  all(int(p) == int(q) for p, q in zip(jax.tree_util.tree_leaves(ubvars), jax.tree_util.tree_leaves(variables))),
+                     'y_apply': int(ya), 'counts_apply': leaves(flax.core.unfreeze(upd2)['count'], 'n')}
+  except Exception as e:  # pylint: disable=broad-except
+    out['unbind'] = {'err': type(e).__name__, 'msg': str(e)[:200]}
+  # a submodule taken out of the bound tree with unbind works on its own subtree
+  sub = {}
+  for f in sorted(c['fields']):
+    try:
+      m, mv = getattr(b, f).unbind()
+      mv = flax.core.unfreeze(mv)
+      ys_, up_ = m.apply(mv, x, mutable=['count'])
+      _, fresh = m.init_with_output(jax.random.key(0), x)
+      fresh = flax.core.unfreeze(fresh)
+      sub[f] = {'y': int(ys_), 'paths_bound': sorted(p for p, _ in leaves(mv.get('params', {}), 'w')), 'paths_fresh': sorted(p for p, _ in leaves(fresh.get('params', {}), 'w'))}
+    except Exception as e:  # pylint: disable=broad-except
+      sub[f] = {'err': type(e).__name__, 'msg': str(e)[:200]}
+  out['unbind_sub'] = sub
   return out
 
 
